@@ -464,6 +464,23 @@ impl<'h> Exec<'h> {
         None
     }
 
+    /// One line per level for diagnostics.
+    pub fn dump_levels(&self) -> String {
+        let Some(store) = self.store.as_ref() else { return "<closed>".into() };
+        let mut out = String::new();
+        for (li, l) in store.tree().verif_levels().iter().enumerate() {
+            if l.is_empty() {
+                continue;
+            }
+            out += &format!("  L{li}:");
+            for f in l.iter() {
+                out += &format!(" {}[{}..{}]ts{}..{}", &f.0.hexdigest()[..8], fmt_key(&f.1), fmt_key(&f.2), f.3, f.4);
+            }
+            out += "\n";
+        }
+        out
+    }
+
     /// The signature of the known recovery defect F-C01-1 on a store that has just been opened:
     /// (1) some level holds two files whose key ranges touch and whose timestamp ranges
     /// interleave (for such a pair the file metadata cannot say which is newer), and (2) a point
